@@ -89,10 +89,19 @@ def new_object(S0, S, res, cls, label='res'):
             (label + '.class', S.cls(res.t) == tag(cls), 'property')]
 
 
+def no_new_leaf(S0, S):
+    """no object allocated by the call is a leaf Point / Expression (so the leaf registries, untouched, stay complete: Reg is preserved)"""
+    r = fresh('r', I)
+    return z3.ForAll([r], z3.Implies(z3.And(r >= S0.alloc, r < S.alloc), z3.And(
+        z3.Not(z3.And(isinstance_f(S.A('cls'), r, 'Point'), S.fld('Point', '_is_leaf', r))),
+        z3.Not(z3.And(isinstance_f(S.A('cls'), r, 'Expression'), S.fld('Expression', '_is_leaf', r))))))
+
+
 def nonleaf_object(S0, S, res, cls):
     """a fresh non-leaf Point/Expression: own fresh dict, no value, no counter"""
     d = S.dd(cls, res.t)
     return new_object(S0, S, res, cls) + [
+        ('no_new_leaf', no_new_leaf(S0, S), 'aux'),
         ('res.nonleaf', z3.Not(S.fld(cls, '_is_leaf', res.t)), 'property'),
         ('res.own_dict', z3.And(d >= S0.alloc, d < S.alloc, S.cls(d) == tag('dict')), 'property'),
         ('res.no_value', S.fld_none(cls, '_value', res.t), 'aux'),
